@@ -12,6 +12,8 @@ MODULES = ['nl.bsn', 'nl.onderwijsnummer', 'pl.nip', 'pl.regon', 'pt.nif', 'dk.c
            'ke.pin', 'li.peid', 'md.idno', 'nl.btw', 'no.mva',
            'ar.dni', 'ar.cbu', 'at.businessid', 'at.vnr', 'br.cnpj', 'ca.bn', 'ca.bc_phn', 'ch.esr', 'ch.vat', 'cn.uscc', 'cr.cr',
            'de.idnr', 'de.wkn', 'dz.nif', 'eu.banknote', 'eu.eic', 'fo.vn',
+           'ec.ruc', 'es.ccc', 'es.postal_code', 'eu.ecnumber', 'eu.oss', 'gh.tin', 'gn.nifp', 'il.hp', 'in_.aadhaar', 'in_.vid',
+           'in_.epic', 'it.aic', 'mc.tva', 'nl.postcode', 'nl.brin', 'nl.identiteitskaartnummer', 'no.kontonr', 'pk.cnic',
            'no.fodselsnummer', 'fi.hetu', 'ch.ssn', 'lv.pvn', 'pl.pesel', 'ee.ik']
 
 
